@@ -313,12 +313,17 @@ def config_obj(contexts, style="iso"):
     return {"contexts": out}
 
 
+def columns(tbl):
+    """every named column of the table: the tested streams and the axis columns (which a config may test as well)"""
+    return {**tbl["axes"], **tbl["cols"]}
+
+
 def direct_call(tbl, mask, sid, mod, test, kw):
     """What the test function returns when called directly on the window rows. Returns (flags list | None if it raised)."""
     import importlib
     fn = getattr(importlib.import_module(f"ioos_qc.{mod}"), test)
     sel = [i for i, m in enumerate(mask) if m]
-    passed = {"inp": np_col([tbl["cols"][sid][i] for i in sel])}
+    passed = {"inp": np_col([columns(tbl)[sid][i] for i in sel])}
     if tbl["t"] is not None:
         passed["tinp"] = np_time([tbl["t"][i] for i in sel])
     for ax, name in (("z", "zinp"), ("lat", "lat"), ("lon", "lon")):
